@@ -1192,9 +1192,19 @@ int tls13_process_certificate_list(const uint8_t *cert_list, size_t cert_list_le
 			error_print();
 			return -1;
 		}
+		size_t need = 0;
 		if (x509_cert_from_der(&cert, &cert_len, &cert_data, &cert_data_len) != 1
 			|| asn1_length_is_zero(cert_data_len) != 1
-			|| x509_cert_to_der(cert, cert_len, &certs, certs_len) != 1) {
+			|| x509_cert_to_der(cert, cert_len, NULL, &need) != 1) {
+			error_print();
+			return -1;
+		}
+		// output buffers are TLS_CONNECT.server_certs/client_certs
+		if (*certs_len + need > TLS_MAX_CERTIFICATES_SIZE) {
+			error_print();
+			return -1;
+		}
+		if (x509_cert_to_der(cert, cert_len, &certs, certs_len) != 1) {
 			error_print();
 			return -1;
 		}
